@@ -245,3 +245,71 @@ Definition op_in_domain (s : sstate) (b : binding) (o : op) : bool * binding :=
   | OSearch _ asl _ sl => ((asl <? bound40) && match sl with Some x => x <? bound40 | None => true end, b)
   | _ => (true, b)
   end.
+
+(* ---------- the known finding's shape, and the full statements as lockstep runs ---------- *)
+(* Shape of the known finding `prune_keeps_late_fork`: finalization moves to node a while some node that does not
+   descend from a was inserted after a (the tree list is in insertion order; only this predicate looks at the order). *)
+Fixpoint inserted_after (t : tree) (a : ref) (seen : bool) : list snode :=
+  match t with
+  | [] => []
+  | n :: t' => if ref_eqb (s_ref n) a then inserted_after t' a true
+               else if seen then n :: inserted_after t' a seen else inserted_after t' a seen
+  end.
+Definition late_fork_at (s : sstate) (o : op) : bool :=
+  match o with
+  | OUpdate trig j f bal _ =>
+      match spec_update_check s trig j f bal with
+      | UApplied (Some a) =>
+          known (ss_tree s) a && existsb (fun n => negb (is_desc (ss_tree s) a n)) (inserted_after (ss_tree s) a false)
+      | _ => false
+      end
+  | _ => false
+  end.
+
+
+(* which calls a property is about *)
+Definition is_query (o : op) : bool :=
+  match o with
+  | OChain _ _ | OClosest _ _ | OCanonAt _ _ _ | OGetSlot _ | OInSub _ _ | OSearch _ _ _ _ | OBlock _ _ _ _ _ | OSlot _ _ _ _ => true
+  | _ => false
+  end.
+Definition is_head (o : op) : bool :=
+  match o with OHead | OFindHead _ _ | OAtt _ _ _ => true | _ => false end.
+Definition is_update (o : op) : bool :=
+  match o with OUpdate _ _ _ _ _ | OSetPin _ _ | OPin | OJust | OFin => true | _ => false end.
+
+Definition as_go (r : outcome rv) : gores rv :=
+  match r with Ok v => GoOk v | Err => GoErr | Panic _ => GoPanic | _ => GoNoReturn end.
+
+(* Impl and Spec side by side over a history: every selected call of the Impl returns what the Spec expects (sink calls included),
+   no call panics or blocks; outside the domain and after a sink failure nothing is demanded (the run is cut there).
+   [late] = false: histories showing the shape of the known finding are cut at that update. *)
+Fixpoint lockstep (sel : op -> bool -> bool) (allow_late : bool) (sink_nil : bool) (w : wrapper) (s : sstate) (b : binding)
+         (moved : bool) (ops : list op) : bool :=
+  match ops with
+  | [] => true
+  | o :: ops' =>
+      let '(ind, b') := op_in_domain s b o in
+      if negb ind || ss_partial s || (negb allow_late && late_fork_at s o) then true else
+      let '(w', r) := impl_step fixed o w in
+      let lg := match o with OUpdate _ _ _ _ _ => w_log w' | _ => [] end in
+      let '(s', e, logok) := spec_step sink_nil o lg s in
+      match r with
+      | Ok _ | Err =>
+          let good := meets e (as_go r) && logok in
+          if good then lockstep sel allow_late sink_nil w' s' b' (moved || negb (cp_eqb (ss_fin s) (ss_fin s'))) ops'
+          else negb (sel o moved)   (* a deviation on a call of another property ends the comparison here *)
+      | _ => false
+      end
+  end.
+
+Definition refines (sel : op -> bool -> bool) (allow_late : bool) (i : init_args) (ops : list op) : bool :=
+  if negb (init_in_domain i) then true else
+  match impl_init fixed i with
+  | (w, Ok _) => lockstep sel allow_late (i_sink_nil i) w (fst (spec_init i)) [(i_anchor_root i, (i_anchor_parent i, i_anchor_slot i))] false ops
+  | _ => false
+  end.
+
+Definition sel_c11 (o : op) (moved : bool) : bool := is_query o.
+Definition sel_c09 (o : op) (moved : bool) : bool := is_head o.
+Definition sel_c10 (o : op) (moved : bool) : bool := is_update o || moved.
